@@ -5,7 +5,7 @@ from common import *  # noqa
 import framework as fw
 import rtbuild
 
-MODULE = ["LWV.Props.C10", "LWV.Props.C09Full"]
+MODULE = ["LWV.Props.C10", "LWV.Props.C09Full", "LWV.Props.C02Full"]
 
 KEYS = {1: [("flags", 8)], 2: [("rate", 8)], 3: [("freq", 16), ("cfl", 16)], 5: [("sig", 8)], 10: [("txp", 8)], 14: [("rx", 16)], 15: [("tx", 16)],
         16: [("rts", 8)], 17: [("data", 8)], 19: [("mk", 8), ("mf", 8), ("mm", 8)], 22: [("ts", 64), ("tsa", 16), ("tsu", 8), ("tsf", 8)]}
